@@ -43,3 +43,9 @@ claim("C06",
       "Whole-range-zero residuals are excluded (the property's clauses contradict each other there) and counted; one-row tables cannot arise.",
       "bounded-exhaustive enumeration against the exact zero set of a rational cascade",
       "DESIGN.md section 4 C06")
+
+claim("C20",
+      "Every point of the lattice 8 arrangements x 2 label forms x passes {None,1,2,3,4} x capacity ratio (5 quick / 17 thorough values incl. 0 and 1) x NTU (8 / 29 values in (0,10]) through the real HX_Eff / HX_NTU: both round trips (effectiveness space absolute, NTU space scaled by conditioning), range, monotonicity along the NTU lattice, c=0 limit, counter-flow bound, agreement of the two label forms; LMTD on all ordered pairs of an 11-value end-difference alphabet (equal, 1e-7/1e-5/1e-3 apart, 1e-3..1e3) plus 60 non-positive pairs: bounds, symmetry, independent value, refusal.",
+      "Three genuine deviations are recorded as known findings and matched only when the observed value equals the exact shipped formula (truncated CrFUU series pinned by tests, c-independent CondEvap, textbook both-mixed relation which has a maximum).",
+      "bounded-exhaustive lattice enumeration of the real functions with algebraic oracles",
+      "DESIGN.md section 4 C20")
